@@ -29,8 +29,14 @@ ASSUMPTIONS = ["64-bit target", "panics inside core/alloc functions other than t
                "user listeners and the sending path reached from handle_data are outside the traversal (local data, not received bytes)",
                "transport threads (socket read loop) are covered only through the decoders (C07)"]
 
-ENTRY_NAMES = ("handle_data", "process_builtin_cache_changes", "process_user_defined_received_cache_changes")
-SKIP_PREFIXES = ("xtypes::serializer::", "dcps::dcps_domain_participant::data_writer_entity::", "dcps::listeners::", "dds_async::", "dds::")
+ENTRY_NAMES = ("handle_data", "process_builtin_cache_changes", "process_user_defined_received_cache_changes",
+               # the per-iteration duties of the worker that consume what the decoders produced (discovery, type lookup, matching)
+               "process_discovered_participants_detector_cache_change", "process_builtin_publications_detector_cache_change",
+               "process_builtin_subscriptions_detector_cache_change", "process_builtin_topics_detector_cache_change",
+               "process_builtin_type_lookup_request_cache_change", "process_builtin_type_lookup_reply_cache_change",
+               "request_topic_type_representation", "process_discovered_readers", "process_discovered_writers")
+SKIP_PREFIXES = ("xtypes::serializer::", "dcps::dcps_domain_participant::data_writer_entity::", "dcps::listeners::", "dds_async::", "dds::",
+                 "rtps_data_representation_serialization::")
 SKIP_NAMES = ("process_pending_write_samples",)
 
 
@@ -44,7 +50,7 @@ def run(ctx, rep):
     ent = [b.id for b in fx.bodies.values() if b.kind in ("Fn", "AssocFn") and b.item_name in ENTRY_NAMES and "DcpsDomainParticipant" in (b.impl_self or b.sname)
            or (b.kind in ("Fn", "AssocFn") and b.item_name in ENTRY_NAMES and "communication_methods" in b.sname)]
     ent = sorted(set(ent))
-    rep.floor("R06a", len(ent), 3, "receive-path entry points of the worker")
+    rep.floor("R06a", len(ent), 12, "receive-path entry points of the worker")
     sites, seen, groups = RC.run_reach(fx, rep, ent, "accepted_sites_c06.json", "R06a", skip_fn=skip)
     rep.floor("R06a", len(sites), 300, "panic / allocation / loop sites reachable from the receive path")
     n = RC.check_field_invariants(fx, rep, "R06b")
